@@ -47,6 +47,8 @@ type vNet[U, D any] struct {
 	closes   int
 	failSend bool // the carrier breaks: every later Send fails
 	strip    bool // a proxy on the way drops the grpctunnel-negotiate header in both directions
+	broken   chan struct{} // closed when a Send could not be marshalled: gRPC finishes the stream
+	brokeErr error
 }
 
 type vNetKey struct{}
@@ -55,7 +57,7 @@ func vNewNet[U, D any](cctx context.Context, capacity int, strip bool) *vNet[U, 
 	if capacity == 0 {
 		capacity = 64
 	}
-	n := &vNet[U, D]{cctx: cctx, up: make(chan *U, capacity), down: make(chan *D, capacity), hdrReady: make(chan struct{}), srvDone: make(chan struct{})}
+	n := &vNet[U, D]{cctx: cctx, up: make(chan *U, capacity), down: make(chan *D, capacity), hdrReady: make(chan struct{}), srvDone: make(chan struct{}), broken: make(chan struct{})}
 	// what a gRPC server does: the handler's context carries the caller's outgoing metadata as
 	// incoming metadata (plus whatever server interceptors put there: vNetKey stands for that)
 	sctx := context.WithValue(context.Background(), vNetKey{}, "interceptor-value")
@@ -69,6 +71,19 @@ func vNewNet[U, D any](cctx context.Context, capacity int, strip bool) *vNet[U, 
 	n.strip = strip
 	n.sctx, n.scancel = context.WithCancel(sctx)
 	return n
+}
+
+// breakOn: m cannot be marshalled - the Send fails and the stream is finished for both ends
+func (n *vNet[U, D]) unmarshallable(m any) error {
+	if vMarshals(m) {
+		return nil
+	}
+	if n.brokeErr == nil {
+		n.brokeErr = status.Error(codes.Internal, "grpc: error while marshaling: string field contains invalid UTF-8")
+		close(n.broken)
+		n.scancel()
+	}
+	return n.brokeErr
 }
 
 // finish: the network server's handler returned err
@@ -119,6 +134,14 @@ func (e *vNetCli[U, D]) Send(m *U) error {
 	if e.n.upClosed {
 		return errors.New("send after CloseSend")
 	}
+	select {
+	case <-e.n.broken:
+		return e.n.brokeErr
+	default:
+	}
+	if err := e.n.unmarshallable(m); err != nil {
+		return err
+	}
 	e.n.upLog = append(e.n.upLog, m)
 	select {
 	case e.n.up <- m:
@@ -139,6 +162,8 @@ func (e *vNetCli[U, D]) Recv() (*D, error) {
 			return nil, e.n.srvErr
 		}
 		return nil, io.EOF
+	case <-e.n.broken:
+		return nil, e.n.brokeErr
 	case <-e.n.cctx.Done():
 		return nil, status.FromContextError(e.n.cctx.Err()).Err()
 	}
@@ -167,8 +192,16 @@ func (e *vNetSrv[U, D]) Send(m *D) error {
 	if e.n.failSend {
 		return errors.New("carrier broken")
 	}
+	select {
+	case <-e.n.broken:
+		return e.n.brokeErr
+	default:
+	}
 	if err := e.n.sctx.Err(); err != nil {
 		return status.FromContextError(err).Err()
+	}
+	if err := e.n.unmarshallable(m); err != nil {
+		return err
 	}
 	e.n.downLog = append(e.n.downLog, m)
 	select {
@@ -490,11 +523,72 @@ func vE2EWire(c2s []*tunnelpb.ClientToServer, s2c []*tunnelpb.ServerToClient, ne
 	}
 }
 
+// legal gRPC metadata: a key that ends in "-bin" carries arbitrary bytes, any other key printable ASCII
 func vE2EMD(tag string, key string) metadata.MD {
-	if tag == "tlr" || verifBool(tag+"-two-values") {
-		return metadata.MD{key: {verifString(tag+"-v1", 2), verifString(tag+"-v2", 2)}}
+	val := func(t string) string {
+		// (printable ASCII also under "-bin" keys here; other byte values: dimension group 5)
+		// exactly two symbolic bytes (a symbolic length would fork every loop over the value)
+		v := verifASCII(t, 2)
+		verifAssume(len(v) == 2)
+		return v
 	}
-	return metadata.MD{key: {verifString(tag+"-v1", 2)}}
+	if tag == "tlr" {
+		return metadata.MD{key: {val(tag + "-v1"), val(tag + "-v2")}}
+	}
+	if verifBool(tag + "-two-values") {
+		return metadata.MD{key: {val(tag + "-v1"), ""}} // the second value is the empty string
+	}
+	return metadata.MD{key: {val(tag + "-v1")}}
+}
+
+// the carrier's marshalling contract (protobuf: a proto3 string field must be valid UTF-8; gRPC: a
+// message that cannot be marshalled fails the Send and finishes the stream it was sent on)
+func vFrameStrings(md *tunnelpb.Metadata, more ...string) bool {
+	for _, s := range more {
+		if !vValidUTF8(s) {
+			return false
+		}
+	}
+	if md != nil {
+		for k, vs := range md.Md {
+			if !vValidUTF8(k) {
+				return false
+			}
+			for _, v := range vs.Val {
+				if !vValidUTF8(v) {
+					return false
+				}
+			}
+		}
+	}
+	return true
+}
+
+func vMarshalsC2S(m *tunnelpb.ClientToServer) bool {
+	if ns, ok := m.Frame.(*tunnelpb.ClientToServer_NewStream); ok {
+		return vFrameStrings(ns.NewStream.RequestHeaders, ns.NewStream.MethodName)
+	}
+	return true
+}
+
+func vMarshalsS2C(m *tunnelpb.ServerToClient) bool {
+	switch f := m.Frame.(type) {
+	case *tunnelpb.ServerToClient_ResponseHeaders:
+		return vFrameStrings(f.ResponseHeaders)
+	case *tunnelpb.ServerToClient_CloseStream:
+		return vFrameStrings(f.CloseStream.ResponseTrailers, f.CloseStream.Status.GetMessage())
+	}
+	return true
+}
+
+func vMarshals(m any) bool {
+	switch m := m.(type) {
+	case *tunnelpb.ClientToServer:
+		return vMarshalsC2S(m)
+	case *tunnelpb.ServerToClient:
+		return vMarshalsS2C(m)
+	}
+	return true
 }
 
 // S-E2E / KS-E2E (C01 C02 C04 C07 C08 C11 C13 C14 C16 C17 C18): one RPC of any call shape
@@ -509,7 +603,9 @@ func verifH_E2E() {
 	//  2 events: direction x revision x shape x {caller cancels, tunnel closed} x when x who runs in between x handler outcome
 	//  3 endings: direction x how the tunnel ends x shape
 	//  4 graceful shutdown while the RPC is in flight: direction x streaming shape x when x handler outcome
-	group := verifChoice("group", 5)
+	//  5 binary metadata: a "-bin" value that is valid UTF-8 beyond ASCII / not valid UTF-8, as request
+	//    metadata, response header or trailer x direction x unary / bidi
+	group := verifChoice("group", 6)
 	if verifParam("groups")&(1<<group) == 0 {
 		return
 	}
@@ -521,7 +617,7 @@ func verifH_E2E() {
 		}
 		return false
 	}
-	reverse := inG(1, 2, 3, 4) && verifBool("reverseTunnel")
+	reverse := inG(1, 2, 3, 4, 5) && verifBool("reverseTunnel")
 	cliNoFC := (inG(1) || (inG(2) && verifParam("ilv") != 0)) && verifBool("rpcClientEndDisablesFlowControl")
 	srvNoFC := inG(1) && verifBool("rpcServerEndDisablesFlowControl")
 	// the negotiate header does not get through (either way): each end then faces a peer that does not
@@ -565,7 +661,7 @@ func verifH_E2E() {
 	if inG(0) {
 		app.setHeader = verifBool("handlerSetsHeaders")
 		if app.setHeader {
-			app.hdr = vE2EMD("hdr", "hk")
+			app.hdr = vE2EMD("hdr", "hk-bin")
 			app.sendHeaderEarly = verifBool("sendHeaderEarly")
 		}
 		app.setTrailer = verifBool("handlerSetsTrailers")
@@ -577,7 +673,12 @@ func verifH_E2E() {
 		c := verifU32("code")
 		verifAssume(c >= 1 && c <= 16)
 		app.code = codes.Code(c)
-		app.msg = verifString("statusMessage", 3)
+		app.msg = "m"
+		if inG(0) {
+			// a gRPC status message is a Unicode string; explored: two symbolic printable ASCII characters
+			app.msg = verifASCII("statusMessage", 2)
+			verifAssume(len(app.msg) == 2)
+		}
 	}
 	nresp := 1
 	if ss && inG(0) {
@@ -588,9 +689,29 @@ func verifH_E2E() {
 	for i := 0; i < nresp; i++ {
 		app.responses = append(app.responses, payload("resp"))
 	}
-	withReqMD := inG(0) && verifBool("callerAttachesMetadata")
+	binWhere, binInvalid := -1, false
+	if inG(5) {
+		binWhere = verifChoice("binaryValueIn", 3) // 0 request metadata, 1 response headers, 2 trailers
+		binInvalid = verifBool("notUTF8")
+		bv := "\xc3\xa9\x00" // valid UTF-8: e-acute, NUL
+		if binInvalid {
+			bv = "\xff\xfe"
+		}
+		switch binWhere {
+		case 1:
+			app.setHeader, app.hdr = true, metadata.MD{"hk-bin": {"ok", bv}}
+		case 2:
+			app.setTrailer, app.tlr = true, metadata.MD{"tk-bin": {bv}}
+		}
+	}
+	withReqMD := (inG(0) && verifBool("callerAttachesMetadata")) || binWhere == 0
 	var reqMD metadata.MD
-	if withReqMD {
+	if binWhere == 0 {
+		reqMD = metadata.MD{"rk-bin": {"\xc3\xa9\x00"}, "plain": {"v"}}
+		if binInvalid {
+			reqMD["rk-bin"] = []string{"\xff\xfe"}
+		}
+	} else if withReqMD {
 		reqMD = vE2EMD("rmd", "rk")
 		if verifBool("grpcTimeoutHeader") {
 			reqMD["grpc-timeout"] = []string{"7S"}
@@ -726,6 +847,12 @@ func verifH_E2E() {
 	} else {
 		var err error
 		st, err = ch.NewStream(ctx, &grpc.StreamDesc{ClientStreams: cs, ServerStreams: ss}, method, grpc.Header(&hdrT), grpc.Trailer(&tlrT), WithTunnelChannel(&usedCh))
+		if binInvalid && binWhere == 0 && err != nil {
+			// the RPC is refused at the start because its metadata cannot be carried (F9): the
+			// refusal must stay an affair of this RPC - the rest of the harness checks the tunnel
+			final, finished, st = err, true, nil
+			goto afterCall
+		}
 		verifAssert(err == nil, "C08.e2e-rpc-starts-on-an-open-tunnel")
 		if err != nil {
 			return
@@ -765,13 +892,25 @@ func verifH_E2E() {
 			verifDrain()
 		}
 	}
+afterCall:
 	verifAssert(finished, "C04+C07.e2e-the-call-ends")
 	verifDrain()
 
 	// ---- what both applications saw
+	if inG(5) {
+		// C03: whatever happens to an RPC whose metadata cannot be encoded, the tunnel is not ended by it
+		verifAssert(c.Err() == nil && vChanOpenRO(c.Done()), "C03.e2e-unencodable-metadata-never-ends-the-tunnel")
+	}
 	okOutcome := (ss && final == io.EOF) || (!ss && final == nil)
 	handlerOutcome := false // the caller's result is the handler's
-	if okOutcome {
+	if binInvalid && binWhere == 0 {
+		// C02 as stated: binary values are delivered exactly and the RPC runs as any other
+		verifCover("e2e-unencodable-request-metadata")
+		verifAssert(okOutcome && len(app.calls) == 1 && vSameMD(app.inMD, reqMD), "C02.e2e-bin-request-metadata-that-is-not-utf8-is-delivered-exactly")
+		if len(app.calls) == 0 {
+			verifAssert(final != nil && final != io.EOF, "C02+C03.e2e-rpc-with-unencodable-metadata-fails-with-an-error")
+		}
+	} else if okOutcome {
 		handlerOutcome = true
 		verifCover("e2e-ok")
 		verifAssert(app.code == codes.OK, "C02.e2e-ok-only-when-the-handler-returned-ok")
@@ -802,7 +941,9 @@ func verifH_E2E() {
 	if len(app.calls) == 1 {
 		verifAssert(app.calls[0] == svcName+"/"+mname, "C08.e2e-exactly-the-named-handler")
 		// C02 / C17 / C18: what the handler's context carries
-		if withReqMD {
+		if binInvalid && binWhere == 0 {
+			// (asserted above under its own id)
+		} else if withReqMD {
 			verifAssert(vSameMD(app.inMD, reqMD), "C02.e2e-handler-sees-exactly-the-callers-metadata")
 		} else {
 			verifAssert(len(app.inMD) == 0, "C02.e2e-no-request-metadata-means-none")
@@ -850,13 +991,26 @@ func verifH_E2E() {
 		if len(app.calls) == 0 {
 			wantHdr, wantTlr = nil, nil
 		}
+		hdrID, tlrID := "C02.e2e-header-call-option-exact", "C02.e2e-trailer-call-option-exact"
+		if binInvalid && binWhere == 1 {
+			verifCover("e2e-unencodable-header")
+			hdrID = "C02.e2e-bin-header-that-is-not-utf8-is-delivered-exactly"
+		}
+		if binInvalid && binWhere == 2 {
+			verifCover("e2e-unencodable-trailer")
+			tlrID = "C02.e2e-bin-trailer-that-is-not-utf8-is-delivered-exactly"
+		}
 		if st != nil {
 			hd, herr := st.Header()
-			verifAssert(herr == nil && vSameMD(hd, wantHdr), "C02.e2e-header-accessor-exact")
-			verifAssert(vSameMD(st.Trailer(), wantTlr), "C02.e2e-trailer-accessor-exact-after-the-terminal-result")
+			if !(binInvalid && binWhere == 1) {
+				verifAssert(herr == nil && vSameMD(hd, wantHdr), "C02.e2e-header-accessor-exact")
+			}
+			if !(binInvalid && binWhere == 2) {
+				verifAssert(vSameMD(st.Trailer(), wantTlr), "C02.e2e-trailer-accessor-exact-after-the-terminal-result")
+			}
 		}
-		verifAssert(vSameMD(hdrT, wantHdr), "C02.e2e-header-call-option-exact")
-		verifAssert(vSameMD(tlrT, wantTlr), "C02.e2e-trailer-call-option-exact")
+		verifAssert(vSameMD(hdrT, wantHdr), hdrID)
+		verifAssert(vSameMD(tlrT, wantTlr), tlrID)
 	}
 	// (a call refused because the tunnel was already closed never had a tunnel)
 	verifAssert(usedCh == tch || (event == 2 && usedCh == nil && len(app.calls) == 0), "C17.e2e-with-tunnel-channel-names-the-tunnel")
